@@ -140,16 +140,23 @@ pub fn check_c23(out: &NetOutcome) {
         let pair = if i % 2 == 0 { i + 1 } else { i - 1 };
         let link = s.link_out.borrow();
         let mut sent_at: BTreeMap<Hash, u64> = BTreeMap::new();
+        let mut sent_idx: BTreeMap<Hash, usize> = BTreeMap::new();
         for (k, m) in link.transcript.iter().enumerate() {
             use simworld::syncwire::ToWire;
             let h = match m.to_wire() {
                 Wire::Op { hash, .. } | Wire::Live { hash } => hash,
                 _ => continue,
             };
-            if sent_at.contains_key(&h) {
-                violation("sent-twice-on-one-session", "TopicLogSync", format!("session {} (peer {} -> {}) sent {} twice", s.session_id, s.peer, s.remote, name(&h)));
+            // "At most once within its de-duplication window": the window (1024 entries, sent and
+            // received operations alike) cannot have forgotten the first copy while fewer than
+            // 1024 messages were sent since. (Bulk runs send more than that on one session.)
+            if let Some(first) = sent_idx.get(&h) {
+                if k - first < 1024 {
+                    violation("sent-twice-on-one-session", "TopicLogSync", format!("session {} (peer {} -> {}) sent {} twice ({} messages apart)", s.session_id, s.peer, s.remote, name(&h), k - first));
+                }
             }
             sent_at.insert(h, link.sent_seq[k]);
+            sent_idx.insert(h, k);
         }
         if sent_at.len() > 1 {
             ctx::probe("forwarded_to_other_session");
